@@ -14,7 +14,9 @@
 // run and every applicable fault kind (abort-before, lost-reply, spurious conflict, crash-after)
 // injected at that write; then a few more times with random multi-fault plans and fresh
 // schedules.  Every eighth case is free-running instead (real goroutine concurrency, random
-// faults) for the Go race detector.
+// faults) for the Go race detector; there every client first allocates 3+3 addresses under one
+// handle and releases them in one ReleaseIPs call, so that the call's per-block goroutines really
+// run in parallel.
 //
 // Oracles (all on recorded observations, none re-implements IPAM):
 //  1. online, at every committed block write (under the store lock): the written block is
@@ -101,7 +103,7 @@ func genCase(r *rand.Rand, thorough bool) *ipamkit.ConcCase {
 
 func run(c *harness.Case) {
 	cc := genCase(c.R, c.Thorough())
-	d := &ipamkit.Driver{C: c, CC: cc, Seed: c.R.Int63(), Mode: dsched.Uniform, RandomRuns: c.Pick(2, 4), FreeRunning: c.Index%8 == 7, FreeRuns: 3}
+	d := &ipamkit.Driver{C: c, CC: cc, Seed: c.R.Int63(), Mode: dsched.Uniform, RandomRuns: c.Pick(2, 4), FreeRunning: c.Index%8 == 7, FreeRuns: 3, MultiBlockRelease: true}
 	if c.R.Intn(2) == 0 {
 		d.Mode, d.Depth = dsched.PCT, 2+c.R.Intn(3)
 	}
